@@ -144,6 +144,30 @@ func (x array) hash(t types.Type) int {
 
 func (x structure) eq(t types.Type, _y interface{}) bool {
 	y := _y.(structure)
+	if isReflectValueType(t) {
+		// the fake reflect.Value: {type, value, addr}
+		xt, xok := x[0].(rtype)
+		yt, yok := y[0].(rtype)
+		if xok != yok {
+			return false
+		}
+		if !xok {
+			return true
+		}
+		if !types.Identical(xt.t, yt.t) {
+			return false
+		}
+		xa, _ := x[2].(*value)
+		ya, _ := y[2].(*value)
+		if xa != ya {
+			return false
+		}
+		if xa != nil {
+			return true
+		}
+		defer func() { recover() }()
+		return x[1] == y[1]
+	}
 	tStruct := t.Underlying().(*types.Struct)
 	for i, n := 0, tStruct.NumFields(); i < n; i++ {
 		if f := tStruct.Field(i); !f.Anonymous() {
@@ -495,3 +519,8 @@ func (it *stringIter) next() tuple {
 	return okv
 }
 
+
+func isReflectValueType(t types.Type) bool {
+	n, ok := t.(*types.Named)
+	return ok && n.Obj().Name() == "Value" && n.Obj().Pkg() != nil && n.Obj().Pkg().Path() == "reflect"
+}
